@@ -1,18 +1,19 @@
 /-
-  Model of the bookkeeping of `typelib.py.classes.slotted` (src/typelib/py/classes.py:43-141).
+  Model of the bookkeeping of `typelib.py.classes.slotted` (src/typelib/py/classes.py:43-143).
 
   What is modelled (and tied to the real code by harness/props/c19.py on every run):
     * the class under decoration as a *description* (`Cls`): `repr(cls)` (the guard key), name /
       qualname / module, whether `dataclasses.fields(cls)` succeeds, the field names in order
       (inherited fields included, as `dataclasses.fields` returns them), the keys of `cls.__dict__`
       in order (so: which field names have a class-level default or a slot descriptor in the dict,
-      whether `__getstate__` / `__setstate__` are user-defined, whether the class already has a
-      `__slots__` entry), the `__slots__` of every class of `cls.mro()[1:]`, whether one of those
+      whether `__getstate__` / `__setstate__` are defined by the class itself, whether the class already
+      has a `__slots__` entry), whether a base other than `object` defines a state method, the
+      `__slots__` of every class of `cls.mro()[1:]`, whether one of those
       classes has a non-zero `__dictoffset__` / `__weakrefoffset__`, the frozen flag of
       `__dataclass_params__`, and — for CPython's creation rule — the layout of `cls.__base__` (the
       "best base" of `type.__new__`): its dict / weakref offsets and whether it is variable-sized;
     * `slotsOf`   = the `__slots__` tuple computed at classes.py:107-112, in order;
-    * `newDict`   = the keys of the namespace handed to the metaclass (classes.py:97-128);
+    * `newDict`   = the keys of the namespace handed to the metaclass (classes.py:97-130);
     * `creationErr` = the part of `type.__new__` that looks at `__slots__`
       (Objects/typeobject.c `type_new_slots_impl`): nonempty slots on a variable-sized base,
       a `__dict__` / `__weakref__` slot the base already provides (or listed twice), a slot name
@@ -21,8 +22,8 @@
       and already mangled), layout conflicts between several bases (same bases as the original
       class, which was created), `__init_subclass__` / `__set_name__` / anything else user code
       does during creation — that is the parameter `creationOk`;
-    * the module-global re-entrancy guard `_stack` (classes.py:141) as the state `List Str`, and
-      `wrap` / `_wrap` (classes.py:69-136) as `decorate` / `wrapInner`, including the `finally`
+    * the module-global re-entrancy guard `_stack` (classes.py:143) as the state `List Str`, and
+      `wrap` / `_wrap` (classes.py:69-138) as `decorate` / `wrapInner`, including the `finally`
       clause; `decorateRe` is the same decoration under a metaclass whose `__new__` calls
       `slotted` again on the class it has just built (same repr) — what the guard is for.
 
@@ -70,10 +71,10 @@ structure Cls where
   solidWeak : Bool := false
   /-- `cls.__base__.__itemsize__ != 0` (subclass of int / tuple / bytes) -/
   solidVar : Bool := false
-  /-- `cls.__dataclass_params__.frozen` (classes.py:126) -/
+  /-- `cls.__dataclass_params__.frozen` (classes.py:128) -/
   frozen : Bool := false
-  /-- some class of `cls.mro()[1:]` other than `object` defines `__getstate__` or `__setstate__`; part
-      of the description because the code does NOT look at it (classes.py:125 tests `cls_dict` only) -/
+  /-- some class of `cls.__mro__[1:]` other than `object` has `__getstate__` or `__setstate__` in its
+      `vars` (classes.py:125: `declared` ranges over the whole MRO but `object`) -/
   baseUserState : Bool := false
   /-- the class's own pre-existing `__slots__` (none when `"__slots__" ∉ cls.__dict__`); part of
       the description because the repaired code must ignore it (`cls.mro()[1:]`, classes.py:99) -/
@@ -113,19 +114,20 @@ def notInherited (c : Cls) (n : Str) : Bool := !(inheritedSlots c).contains n
 /-- `cls_dict["__slots__"]` (classes.py:112) -/
 def slotsOf (c : Cls) (f : Flags) : List Str := (fieldNames c f).filter (notInherited c)
 
-/-- the condition of classes.py:124-127 on the rewritten dict `d` -/
-def stateFix (c : Cls) (d : List Str) : Bool := c.frozen && !d.contains kGetstate && !d.contains kSetstate
+/-- the condition of classes.py:125-129: frozen, and neither state method is in `declared` — the names
+    in `vars(k)` of the class itself (its ORIGINAL dict) and of every base but `object`. -/
+def stateFix (c : Cls) : Bool :=
+  c.frozen && !c.dictKeys.contains kGetstate && !c.dictKeys.contains kSetstate && !c.baseUserState
 
-/-- keys of `cls_dict` when the new class is created (classes.py:97-128) -/
+/-- keys of `cls_dict` when the new class is created (classes.py:97-130) -/
 def newDict (c : Cls) (f : Flags) : List Str :=
   let d1 := addKey c.dictKeys kSlots
   let d2 := popAll d1 (fieldNames c f)
   let d3 := popKey (popKey d2 kDict) kWeakref
-  if stateFix c d3 then addKey d3 kSetstate else d3
+  if stateFix c then addKey d3 kSetstate else d3
 
-/-- Is `__setstate__` of the new class the pickle fix `_slots_setstate`? -/
-def setstateFixed (c : Cls) (f : Flags) : Bool :=
-  stateFix c (popKey (popKey (popAll (addKey c.dictKeys kSlots) (fieldNames c f)) kDict) kWeakref)
+/-- Does this decoration install the pickle fix `_slots_setstate` as `__setstate__`? -/
+def setstateFixed (c : Cls) (_f : Flags) : Bool := stateFix c
 
 /-! ### CPython's rule for `__slots__` at class creation -/
 
@@ -174,7 +176,7 @@ inductive Outcome
   | created (r : Created)
   | metaclassError           -- the TypeError of classes.py:79-83
   | notDataclass             -- TypeError of `dataclasses.fields` (classes.py:107)
-  | creationError (e : CErr) -- `type.__new__` rejects the slots (classes.py:131)
+  | creationError (e : CErr) -- `type.__new__` rejects the slots (classes.py:133)
   | envError                 -- class creation raised for a reason outside `creationErr` (`creationOk = false`)
   deriving DecidableEq, Repr, Inhabited
 
@@ -188,12 +190,12 @@ abbrev State := List Str
 def guardAdd (st : State) (k : Str) : State := if k ∈ st then st else k :: st
 def guardDiscard (st : State) (k : Str) : State := st.filter (neKey k)
 
-/-- classes.py:131-133: the new class. -/
+/-- classes.py:133-135: the new class. -/
 def build (c : Cls) (f : Flags) : Created :=
   { slots := slotsOf c f, dict := newDict c f, name := c.name, qualname := c.qualname,
     module := c.module, setstateFix := setstateFixed c f }
 
-/-- `_wrap` (classes.py:76-136): guard state when `_wrap` returns or raises, and what it did. -/
+/-- `_wrap` (classes.py:76-138): guard state when `_wrap` returns or raises, and what it did. -/
 def wrapInner (st : State) (c : Cls) (f : Flags) (creationOk : Bool) : State × Outcome :=
   if c.key ∈ st then (st, .metaclassError)
   else
